@@ -23,14 +23,31 @@ structure PCfg where
   /-- an entry that does not fit into an EMPTY memtable is written into it by itself
       (as-is: it is treated like any other, so every fresh memtable is rotated away again) -/
   oversizeAlone : Bool
+  /-- `NewLSM` replaces a `MemTableSize <= 0` by a positive default (as-is: it is used as it
+      is, and a budget of 0 can never hold an entry) -/
+  sizeDefaulted : Bool
   deriving DecidableEq, Repr
 
-def PCfg.good : PCfg := { fitOp := .gt, guardOp := .gt, oversizeAlone := true }
+def PCfg.good : PCfg := { fitOp := .gt, guardOp := .gt, oversizeAlone := true, sizeDefaulted := true }
 
 def PCfg.OpsGood (c : PCfg) : Prop := c.fitOp = .gt ∧ c.guardOp = .gt
 instance PCfg.decOpsGood (c : PCfg) : Decidable c.OpsGood := by unfold PCfg.OpsGood; exact inferInstance
 def PCfg.Good (c : PCfg) : Prop := c.OpsGood ∧ c.oversizeAlone = true
 instance PCfg.decGood (c : PCfg) : Decidable c.Good := by unfold PCfg.Good; exact inferInstance
+
+/-- everything: operators, oversize rule, and a positive memtable budget whatever the option -/
+def PCfg.GoodSize (c : PCfg) : Prop := c.Good ∧ c.sizeDefaulted = true
+instance PCfg.decGoodSize (c : PCfg) : Decidable c.GoodSize := by unfold PCfg.GoodSize; exact inferInstance
+
+/-- the budget `SetBatch` works with, given `Options.MemTableSize = m` (64 MiB default) -/
+def effSize (c : PCfg) (m : Nat) : Nat := if c.sizeDefaulted && m == 0 then 67108864 else m
+
+theorem effSize_pos (c : PCfg) (hc : c.sizeDefaulted = true) (m : Nat) : 0 < effSize c m := by
+  unfold effSize
+  by_cases h : m = 0
+  · simp [hc, h]
+  · have : (m == 0) = false := by simp [h]
+    simp [this]; omega
 
 inductive POut where
   | written | rotated | spin
